@@ -61,9 +61,10 @@ DEFAULT_P = {
 }
 
 INJECT_KINDS = ["doubleCall", "cycle", "unsatPriority", "singleCaller", "readyDepConflict", "sameTransConflict",
-                "sameTransMixed", "aliasDouble", "nonexclTwice"]
+                "sameTransMixed", "aliasDouble", "nonexclTwice", "cycleUncalled"]
 # the reject kind an injected defect is expected to be classified as (analysis.classify decides)
-EXPECT_KIND = {"sameTransMixed": "sameTransConflict", "aliasDouble": "doubleCall", "nonexclTwice": "doubleCall"}
+EXPECT_KIND = {"sameTransMixed": "sameTransConflict", "aliasDouble": "doubleCall", "nonexclTwice": "doubleCall",
+               "cycleUncalled": "cycle"}
 ACCEPT_KINDS = ["alts_if", "alts_switch", "alts_fsm", "nonexcl_multi", "same_trans_excl", "alias_alts", "nonexcl_alts",
                 "cross_module"]
 
@@ -177,8 +178,10 @@ class Gen:
             comb = "or"  # an exclusive method with an explicit combiner
         validate = None
         if iw > 0 and rng.random() < P["p_validate"]:
-            kind = rng.choice(["eq", "ne", "lt", "bit"])
-            if kind == "bit":
+            kind = rng.choice(["eq", "ne", "lt", "bit", "mbit", "mnz", "minc"] + (["mlow2"] if iw == 2 else []))
+            if kind in ("mnz", "mlow2", "minc"):  # multi-bit results, no parameter
+                validate = [kind, 0]
+            elif kind in ("bit", "mbit"):
                 validate = [kind, rng.randrange(iw)]
             elif kind == "lt":
                 validate = [kind, rng.randrange(1, 1 << iw)]
@@ -840,7 +843,19 @@ def cross_module_family(d: dict, rng: random.Random, P, must_reject: bool = Fals
         d["relations"].append({"k": "conflict", "a": a, "b": b, "prio": rng.choice(["U", "L", "R"])})
 
 
-_FAMILIES = {"cross_module": cross_module_family, "sameTransMixed": same_trans_family, "aliasDouble": alias_family, "nonexclTwice": nonexcl_twice_family,
+def cycle_uncalled_family(d: dict, rng: random.Random, P, must_reject: bool = True):
+    """mutual recursion of length 2-3 among fresh methods that nothing outside the cycle calls (no transaction
+    reaches it), optionally entered from an (itself uncalled) entry method: must reject (a method calls itself)"""
+    n = rng.choice([2, 2, 3])
+    ms = [_fresh_leaf(d, rng, "k", nonexclusive=int(rng.random() < 0.3)) for _ in range(n)]
+    for k in range(n):
+        _find_body_stmt(d, ms[k])["block"].append(_call(d, ms[(k + 1) % n], rng, enable=rng.random() < 0.3))
+    if rng.random() < 0.35:
+        entry = _fresh_leaf(d, rng, "k")
+        _find_body_stmt(d, entry)["block"].append(_call(d, rng.choice(ms), rng))
+
+
+_FAMILIES = {"cycleUncalled": cycle_uncalled_family, "cross_module": cross_module_family, "sameTransMixed": same_trans_family, "aliasDouble": alias_family, "nonexclTwice": nonexcl_twice_family,
              "same_trans_excl": same_trans_family, "alias_alts": alias_family, "nonexcl_alts": nonexcl_twice_family}
 
 
